@@ -61,6 +61,8 @@ def _root_.Deb822Verif.Spec.PItem.isComment : PItem → Bool
 /-- the list of items ends with a comment line -/
 def endsComment (is : List PItem) : Prop := is.getLast?.map PItem.isComment = some true
 
+instance (is : List PItem) : Decidable (endsComment is) := by unfold endsComment; exact inferInstance
+
 theorem headNot_items_cons (i : PItem) (is : List PItem) (rest : List Tok) :
     HeadNot [.INDENT] (itemsToks (i :: is) ++ rest) := by
   cases i with
@@ -124,6 +126,10 @@ theorem paraLoop_items_indent (is : List PItem) (R : List Tok)
     `parasTermR` the first of them is a blank line), or its last line is a comment line -/
 def parasClosed (ps : List (ParaS × List Gap)) : Prop :=
   ∀ pg, ps.getLast? = some pg → pg.2 ≠ [] ∨ endsComment pg.1.rest
+
+instance (ps : List (ParaS × List Gap)) : Decidable (parasClosed ps) :=
+  decidable_of_iff ((ps.getLast?.all fun pg => decide (pg.2 ≠ [] ∨ endsComment pg.1.rest)) = true) (by
+    unfold parasClosed; cases ps.getLast? <;> simp)
 
 theorem parasClosed_tail (pg q : ParaS × List Gap) (ps : List (ParaS × List Gap))
     (h : parasClosed (pg :: q :: ps)) : parasClosed (q :: ps) := by
@@ -240,6 +246,8 @@ theorem lex_orphan_start (l tail : Str) (ho : OrphanLine l) (he : LineEnd tail) 
     least one blank / comment line (the first of which is a blank line, by `DocTermAll`), or the last
     line of its last paragraph is a comment line -/
 def ClosedEnd (d : DocS) : Prop := parasClosed d.paras
+
+instance (d : DocS) : Decidable (ClosedEnd d) := by unfold ClosedEnd; exact inferInstance
 
 /-- the blank / comment lines at the very end of the document -/
 def lastGap (d : DocS) : List Gap :=
